@@ -140,7 +140,7 @@ theorem cacheStep_addPlain (rp : Repo β) (c : Nat) (cm : Commit π) (fr : List 
     exact .visited hm this rfl rfl rfl rfl
 
 theorem finish_cacheStep {pl : Plug π β} {head : Nat} {st st' : St β} {c : Nat} {cm : Commit π} {fr : List Nat}
-    (hf : finish pl head st c cm fr = .ok st') : CacheStep c cm fr st.rp st'.rp := by
+    {rel : List Nat} (hf : finish pl head rel st c cm fr = .ok st') : CacheStep c cm fr st.rp st'.rp := by
   cases finish_cases hf with
   | irrelevant hm _ hfr => exact .done hm hfr rfl rfl rfl rfl
   | plain _ _ hm => exact cacheStep_addPlain _ _ _ _ hm
@@ -427,7 +427,7 @@ theorem sem_hyps (h : Hist π) (pl : Plug π β) (head : Nat) :
           exact ⟨r, (mem_addCls acc cl r).mpr (Or.inr hr), hrr⟩
   Vstep := fun _ _ _ => trivial
   Hfin := by
-    intro s c cm fr s' hP _ hcl hcm hQ hf
+    intro rel s c cm fr s' hP _ hcl hcm hQ hf
     obtain ⟨w', _⟩ := finish_wf hP.1 hQ.lt hcl hcm hf
     have hs := finish_cacheStep hf
     refine ⟨⟨w', ?_⟩, hs.grow hcl⟩
